@@ -28,11 +28,11 @@ Proof.
 Qed.
 
 (* ---------- record algebra ---------- *)
-Lemma eta_dels : forall s, s = set_stake (set_start s (start s)) (set_dels (stake s) (dels (stake s))).
+Lemma eta_dels : forall s, s = set_stake (set_start s (start s)) (set_dels (stake s) (dels (stake s)) (idx71 (stake s))).
 Proof. intros [c n h a v b st [d i7 u i3 q r i5 i6 rq ui] g m]. reflexivity. Qed.
-Lemma eta_ubd : forall s, s = set_stake s (set_ubd (stake s) (ubds (stake s)) (idx33 (stake s)) (ubdq (stake s))).
+Lemma eta_ubd : forall s, s = set_stake s (set_unbidx (set_ubd (stake s) (ubds (stake s)) (idx33 (stake s)) (ubdq (stake s))) (unbidx (stake s))).
 Proof. intros [c n h a v b st [d i7 u i3 q r i5 i6 rq ui] g m]. reflexivity. Qed.
-Lemma eta_red : forall s, s = set_stake s (set_red (stake s) (reds (stake s)) (idx35 (stake s)) (idx36 (stake s)) (redq (stake s))).
+Lemma eta_red : forall s, s = set_stake s (set_unbidx (set_red (stake s) (reds (stake s)) (idx35 (stake s)) (idx36 (stake s)) (redq (stake s))) (unbidx (stake s))).
 Proof. intros [c n h a v b st [d i7 u i3 q r i5 i6 rq ui] g m]. reflexivity. Qed.
 
 Section Exec.
@@ -55,18 +55,22 @@ Section Exec.
     apply IH. intros s'. destruct x; cbn; [exfalso; eapply H; reflexivity | discriminate | discriminate].
   Qed.
 
-  Lemma closed_compose : forall s A B (F : list (k2 * start_rec) -> list (k2 * start_rec))
-      (G : list (k2 * del_rec) -> list (k2 * del_rec)),
-    let s' := set_stake (set_start s A) (set_dels (stake s) B) in
-    set_stake (set_start s' (F (start s'))) (set_dels (stake s') (G (dels (stake s'))))
-    = set_stake (set_start s (F A)) (set_dels (stake s) (G B)).
-  Proof. intros [c n h a v b st [d i7 u i3 q r i5 i6 rq ui] g m] A B F G. reflexivity. Qed.
+  Definition idx71_step (m : list (k2 * unit)) (kv : k2 * del_rec) :=
+    sset k2_eqb (to, d_val (snd kv)) tt (sdel k2_eqb (from, d_val (snd kv)) m).
+
+  Lemma closed_compose : forall s A B C (F : list (k2 * start_rec) -> list (k2 * start_rec))
+      (G : list (k2 * del_rec) -> list (k2 * del_rec)) (H : list (k2 * unit) -> list (k2 * unit)),
+    let s' := set_stake (set_start s A) (set_dels (stake s) B C) in
+    set_stake (set_start s' (F (start s'))) (set_dels (stake s') (G (dels (stake s'))) (H (idx71 (stake s'))))
+    = set_stake (set_start s (F A)) (set_dels (stake s) (G B) (H C)).
+  Proof. intros [c n h a v b st [d i7 u i3 q r i5 i6 rq ui] g m] A B C F G H. reflexivity. Qed.
 
   Lemma mig_del_step_ok : forall s kv s',
     mig_del_step from to (Ok s) kv = Ok s' ->
-    s' = set_stake (set_start s (start_step (start s) kv)) (set_dels (stake s) (dels_step (dels (stake s)) kv)).
+    s' = set_stake (set_start s (start_step (start s) kv))
+                   (set_dels (stake s) (dels_step (dels (stake s)) kv) (idx71_step (idx71 (stake s)) kv)).
   Proof.
-    intros s kv s'. unfold mig_del_step, start_step, dels_step. cbn [bind].
+    intros s kv s'. unfold mig_del_step, start_step, dels_step, idx71_step. cbn [bind].
     destruct (sget k2_eqb (from, d_val (snd kv)) (start s)) as [si|]; [|discriminate].
     intros H. inversion H. destruct s as [c n h a v b st [d i7 u i3 q r i5 i6 rq ui] g m]. reflexivity.
   Qed.
@@ -74,13 +78,13 @@ Section Exec.
   Lemma mig_dels_closed : forall L s s1,
     fold_left (mig_del_step from to) L (Ok s) = Ok s1 ->
     s1 = set_stake (set_start s (fold_left start_step L (start s)))
-                   (set_dels (stake s) (fold_left dels_step L (dels (stake s)))).
+                   (set_dels (stake s) (fold_left dels_step L (dels (stake s))) (fold_left idx71_step L (idx71 (stake s)))).
   Proof.
     induction L as [|kv L IH]; intros s s1 H.
     - cbn in H. inversion H. subst. cbn. apply eta_dels.
     - cbn [fold_left] in H. destruct (mig_del_step from to (Ok s) kv) as [s'| |] eqn:E.
       + apply IH in H. apply mig_del_step_ok in E. subst s'. rewrite H. cbn [fold_left].
-        apply (closed_compose s _ _ (fold_left start_step L) (fold_left dels_step L)).
+        apply (closed_compose s _ _ _ (fold_left start_step L) (fold_left dels_step L) (fold_left idx71_step L)).
       + exfalso. eapply fold_del_step_not_ok; [|exact H]. intros; discriminate.
       + exfalso. eapply fold_del_step_not_ok; [|exact H]. intros; discriminate.
   Qed.
@@ -95,11 +99,15 @@ Section Exec.
     fold_left (fun q e => mig_q_entry (fun p : k2 => fst p =? from) (ren_pair from to) q (ue_time e))
               (u_entries (snd kv)) q.
 
+  Definition unb_u_step (m : list (Z * ukey)) (kv : k2 * ubd_rec) :=
+    fold_left (fun m e => sset Z.eqb (ue_id e) (UKubd to (u_val (snd kv))) m) (u_entries (snd kv)) m.
+
   Lemma mig_ubds_closed : forall L s,
     fold_left (mig_ubd_step from to) L s =
-    set_stake s (set_ubd (stake s) (fold_left ubds_step L (ubds (stake s)))
+    set_stake s (set_unbidx (set_ubd (stake s) (fold_left ubds_step L (ubds (stake s)))
                                    (fold_left idx33_step L (idx33 (stake s)))
-                                   (fold_left ubdq_step L (ubdq (stake s)))).
+                                   (fold_left ubdq_step L (ubdq (stake s))))
+                            (fold_left unb_u_step L (unbidx (stake s)))).
   Proof.
     induction L as [|kv L IH]; intros s.
     - cbn. apply eta_ubd.
@@ -118,12 +126,16 @@ Section Exec.
     fold_left (fun q e => mig_q_entry (fun p : k3 => fst p =? from) (ren_trip from to) q (re_time e))
               (r_entries (snd kv)) q.
 
+  Definition unb_r_step (m : list (Z * ukey)) (kv : k3 * red_rec) :=
+    fold_left (fun m e => sset Z.eqb (re_id e) (UKred to (r_src (snd kv)) (r_dst (snd kv))) m) (r_entries (snd kv)) m.
+
   Lemma mig_reds_closed : forall L s,
     fold_left (mig_red_step from to) L s =
-    set_stake s (set_red (stake s) (fold_left reds_step L (reds (stake s)))
+    set_stake s (set_unbidx (set_red (stake s) (fold_left reds_step L (reds (stake s)))
                                    (fold_left idx3x_step L (idx35 (stake s)))
                                    (fold_left idx3x_step L (idx36 (stake s)))
-                                   (fold_left redq_step L (redq (stake s)))).
+                                   (fold_left redq_step L (redq (stake s))))
+                            (fold_left unb_r_step L (unbidx (stake s)))).
   Proof.
     induction L as [|kv L IH]; intros s.
     - cbn. apply eta_red.
@@ -139,7 +151,7 @@ Section Exec.
   Definition stake_after (s : state) : stk :=
     let k := stake s in
     {| dels := fold_left dels_step (Ld s) (dels k);
-       idx71 := idx71 k;
+       idx71 := fold_left idx71_step (Ld s) (idx71 k);
        ubds := fold_left ubds_step (Lu s) (ubds k);
        idx33 := fold_left idx33_step (Lu s) (idx33 k);
        ubdq := fold_left ubdq_step (Lu s) (ubdq k);
@@ -147,7 +159,7 @@ Section Exec.
        idx35 := fold_left idx3x_step (Lr s) (idx35 k);
        idx36 := fold_left idx3x_step (Lr s) (idx36 k);
        redq := fold_left redq_step (Lr s) (redq k);
-       unbidx := unbidx k |}.
+       unbidx := fold_left unb_r_step (Lr s) (fold_left unb_u_step (Lu s) (unbidx k)) |}.
 
   Lemma staking_execute_closed : forall s s1,
     staking_execute from to s = Ok s1 ->
